@@ -967,6 +967,11 @@ func (s *runtimeState) loadAuth(compiled config.Compiled) error {
 	}
 
 	s.mu.Lock()
+	// Replay protection must survive a reload: carry the nonces already seen
+	// on a route over to its rebuilt authenticator.
+	for route, auth := range hmacByRoute {
+		auth.InheritReplayState(s.hmacByRoute[route])
+	}
 	s.pullAuthorize = pullapi.BearerTokenAuthorizer(tokens)
 	s.workerAuthorize = workerapi.BearerTokenAuthorizer(tokens)
 	s.adminAuthorize = admin.BearerTokenAuthorizer(adminTokens)
